@@ -210,7 +210,7 @@ fn consts4(a: &[&str]) -> Result<(u32, u32, u32, u32), Fail> {
 fn vfe_arity(op: &str) -> Option<usize> {
     Some(match op {
         "roundtrip" | "square" | "neg" | "reduce" | "diff_sum" | "negate_lazy" => 4,
-        "mul" | "add" | "sub" => 8,
+        "mul" | "add" | "sub" | "mul_negate_lazy" | "mul_diff_sum" => 8,
         "shuffle" => 5,
         "blend" | "cselect" => 9,
         "mul_consts" => 8,
@@ -227,6 +227,15 @@ macro_rules! vfe_impl {
             let r: Option<vh::Lanes4> = match op {
                 "roundtrip" => v::new_split(&$lanes4(a)?),
                 "mul" => v::mul(&$lanes4(a)?, &$lanes4(&a[4..])?),
+                // the unreduced product fed straight into negate_lazy / diff_sum, as the point formulas do
+                "mul_negate_lazy" => match v::mul(&$lanes4(a)?, &$lanes4(&a[4..])?) {
+                    Some(r) => v::negate_lazy(&r),
+                    None => None,
+                },
+                "mul_diff_sum" => match v::mul(&$lanes4(a)?, &$lanes4(&a[4..])?) {
+                    Some(r) => v::diff_sum(&r),
+                    None => None,
+                },
                 "square" => v::$square(&$lanes4(a)?),
                 "neg" => v::neg(&$lanes4(a)?),
                 "negate_lazy" => v::negate_lazy(&$lanes4(a)?),
